@@ -113,135 +113,166 @@ class Tracer:
 
 def run(repo: Repo, chk: Check) -> None:
     chk.scope_decides = (
-        "O1 the AES-GCM key, the nonce written into the GCM parameters (and used for the encryption), the nonce-mode key_info and the "
-        "ephemeral private key each originate, on every path, from os.urandom / AESGCM.generate_key evaluated inside the protect call "
-        "(not a parameter, module constant, cached or stateful helper); O2 their sizes are 256 bit, 12, 32 and ceil(private_key_length/8) "
-        "bytes; O3 no use of the 'random' module, no seeding; O4 the ephemeral public key is computed from that fresh private key and the "
-        "CEK that is wrapped is the CEK that encrypted."
+        "decided on path summaries (every control-flow path composed symbolically, call results identified by call site): O1 the AES-GCM key, "
+        "the nonce written into the GCM parameters (and used for the encryption), the nonce-mode key_info and the ephemeral private key are, "
+        "on every path, the result of os.urandom / AESGCM.generate_key evaluated inside the protect call (not a parameter, module constant, "
+        "cached or stateful helper, mutable default); O2 their sizes are 256 bit, 12, 32 and ceil(private_key_length/8) bytes; O3 no use of "
+        "the 'random' module, no seeding, no caching decorator or mutable default argument in the protect region; O4 the ephemeral public key "
+        "is computed from that fresh private key, which reaches the group operation unreduced, the GCM parameters are written by a writer "
+        "created in this call, and the CEK that is wrapped is the CEK that encrypted."
     )
     chk.scope_not = "statistical distinctness itself (it follows from fresh OS entropy of these sizes); the OS RNG."
     chk.trusted = ["os.urandom / AESGCM.generate_key return fresh OS entropy"]
-    tr = Tracer(repo)
-    encrypt_blob(repo, chk, tr)
-    new_kek(repo, chk, tr)
+    encrypt_blob(repo, chk)
+    new_kek(repo, chk)
     who_may_call(repo, chk)
-    chk.require_min("entropy sinks", 5)
+    chk.require_min("entropy sinks", 4)
 
 
-def _calls(f: Func, name: str) -> t.List[ast.Call]:
-    return sorted([n for n in body_nodes(f.node) if isinstance(n, ast.Call) and unparse(n.func) == name], key=lambda n: n.lineno)
+def entropy_call(repo: Repo, f: Func, tree: t.Optional[ast.AST]) -> t.Optional[str]:
+    if isinstance(tree, ast.Call):
+        d = repo.dotted(tree.func, f.mod)
+        if d in ENTROPY:
+            return d
+    return None
 
 
-def encrypt_blob(repo: Repo, chk: Check, tr: Tracer) -> None:
+def fresh_value(repo: Repo, chk: Check, f: Func, ps: t.Any, tree: t.Optional[ast.AST], what: str, want: t.Union[int, str], site: Site, depth: int = 0) -> bool:
+    """`tree` (a value on path ps of f, over f's inputs and call results) is OS entropy drawn on this path, of the wanted size.
+    A call of a package function is followed into that function's own path summaries (element [i] of a returned tuple)."""
+    from sa.pathsum import Summary
+
+    idx: t.Optional[int] = None
+    base = tree
+    if isinstance(base, ast.Subscript) and isinstance(base.slice, ast.Constant) and isinstance(base.slice.value, int):
+        idx, base = base.slice.value, base.value
+    name = entropy_call(repo, f, base) if idx is None else None
+    if name is not None:
+        call = t.cast(ast.Call, base)
+        chk.ob("O1", site, True, f"{what} = {ps.text(call)}: OS entropy drawn during this call")
+        unit = ENTROPY[name]
+        a = call.args[0] if call.args else None
+        if isinstance(want, int):
+            okf, v = repo.try_fold(a, f.mod) if a is not None else (False, None)
+            w = want * 8 if unit == "bits" else want
+            chk.ob("O2", site, bool(okf and v == w), f"{ps.text(call)}: {v if okf else ps.text(a)} {unit}, required {w}")
+        else:
+            chk.ob("O2", site, a is not None and ps.text(a) == want, f"{ps.text(call)}: size {ps.text(a)}, required {want}")
+        return True
+    if isinstance(base, ast.Call) and depth < 3:
+        from .util import signature
+
+        sig = signature(repo, f, base)
+        g = repo.funcs.get(sig[0]) if sig is not None else None
+        if g is not None:
+            bad = [d for d in g.decorators if any(c in d for c in CACHE_DECORATORS)]
+            if bad:
+                chk.ob("O1", site, False, f"{what} comes from {g.qual}, which is decorated with @{bad[0]}: the same randomness is handed out again for equal arguments")
+                return False
+            if any(isinstance(n, (ast.Global, ast.Nonlocal)) for n in body_nodes(g.node)):
+                chk.ob("O1", site, False, f"{what} comes from {g.qual}, which keeps state across calls (global/nonlocal): randomness is not drawn per call")
+                return False
+            sg = Summary(g)
+            ok = bool(sg.returning())
+            for p2 in sg.returning():
+                v = p2.value
+                if idx is not None:
+                    v = v.elts[idx] if isinstance(v, ast.Tuple) and idx < len(v.elts) else ast.Subscript(value=v, slice=ast.Constant(value=idx), ctx=ast.Load())
+                ok = fresh_value(repo, chk, g, p2, v, what, want, Site.of(g, p2.exit_node, f"{what} returned by {g.name}"), depth + 1) and ok
+            return ok
+    no_call = tree is not None and not any(isinstance(n, ast.Call) for n in ast.walk(tree))
+    why = "a parameter / constant / stored state" if no_call else "a computed value"
+    chk.ob("O1", site, False, f"{what} is {ps.text(tree)[:80]}: {why}, not OS entropy ({', '.join(sorted(ENTROPY))}) drawn during this call")
+    return False
+
+
+def encrypt_blob(repo: Repo, chk: Check) -> None:
+    from sa.pathsum import Summary
+
+    from .util import ev_args, recv_of
+
     f = repo.func("_client._encrypt_blob")
     chk.analysed(f, repo.func("_crypto.cek_generate"), repo.func("_crypto.content_encrypt"))
-    ce = _calls(f, "content_encrypt")
-    ke = _calls(f, "cek_encrypt")
-    if len(ce) != 1 or len(ke) != 1:
-        raise AnalysisError("_encrypt_blob: content_encrypt / cek_encrypt call sites changed")
-    # ---- CEK
-    cek = ce[0].args[2]
-    fr = tr.fresh(f, cek, ce[0])
-    chk.count("entropy sinks")
-    chk.ob("O1", Site.of(f, ce[0], f"content key {unparse(cek)}"), fr.ok, fr.why)
-    for g, c in fr.calls:
-        ok, why = tr.size_ok(g, c, 32)
-        chk.ob("O2", Site.of(g, c), ok, why)
-    # the CEK that is wrapped is the CEK that encrypted
-    rd = tr.rd(f)
-    same = isinstance(cek, ast.Name) and isinstance(ke[0].args[3], ast.Name) and {id(d) for d in rd.reaching(cek.id, ce[0])} == {id(d) for d in rd.reaching(ke[0].args[3].id, ke[0])} and cek.id == ke[0].args[3].id
-    chk.ob("O4", Site.of(f, ke[0]), bool(same), "cek_encrypt wraps the key that encrypted the content" if same else f"cek_encrypt wraps {unparse(ke[0].args[3])}, content was encrypted with {unparse(cek)}")
-    # ---- nonce: the octet string written into the GCM parameters
-    writes = [n for n in body_nodes(f.node) if isinstance(n, ast.Call) and isinstance(n.func, ast.Attribute) and n.func.attr == "write_octet_string"]
-    if len(writes) != 1:
-        raise AnalysisError("_encrypt_blob: GCM parameter nonce write changed")
-    iv = writes[0].args[0]
-    fr = tr.fresh(f, iv, writes[0])
-    chk.count("entropy sinks")
-    chk.ob("O1", Site.of(f, writes[0], f"GCM nonce {unparse(iv)}"), fr.ok, fr.why)
-    for g, c in fr.calls:
-        ok, why = tr.size_ok(g, c, 12)
-        chk.ob("O2", Site.of(g, c), ok, why)
-    # the parameters handed to content_encrypt are the ones carrying that nonce
-    params = ce[0].args[1]
-    org = rd.origin(params, ce[0])
-    okp = len(org) == 1 and isinstance(org[0][0], ast.Call) and unparse(org[0][0].func).endswith(".get_data")
-    chk.ob("O4", Site.of(f, ce[0]), okp, "content_encrypt receives the parameters that carry the fresh nonce" if okp else f"content_encrypt parameters come from {[unparse(v) for v, _ in org]}")
+    summ = Summary(f, ["blob", "key", "protection_descriptor"])
+    if not summ.returning():
+        raise AnalysisError("_encrypt_blob: no returning path")
+    for ps in summ.returning():
+        ce, ke = ps.calls("content_encrypt"), ps.calls("cek_encrypt")
+        if len(ce) != 1 or len(ke) != 1:
+            raise AnalysisError("_encrypt_blob: content_encrypt / cek_encrypt call sites changed")
+        cea, kea = ev_args(repo, f, ce[0]), ev_args(repo, f, ke[0])
+        # ---- CEK
+        chk.count("entropy sinks")
+        fresh_value(repo, chk, f, ps, cea.get("cek"), "content key", 32, Site.of(f, ce[0].node, "content key"))
+        same = cea.get("cek") is not None and ps.key(cea.get("cek")) == ps.key(kea.get("value"))
+        chk.ob("O4", Site.of(f, ke[0].node), bool(same), "cek_encrypt wraps the key that encrypted the content" if same else f"cek_encrypt wraps {ps.text(kea.get('value'))}, content was encrypted with {ps.text(cea.get('cek'))}")
+        # ---- nonce: the octet string written into the GCM parameters, by a writer created on this path
+        params = cea.get("parameters")
+        okp = isinstance(params, ast.Call) and isinstance(params.func, ast.Attribute) and params.func.attr == "get_data" and ps.text(params.func.value) == "ASN1Writer()"
+        chk.ob("O4", Site.of(f, ce[0].node, "GCM parameters"), bool(okp), "content_encrypt receives parameters written by an ASN1Writer created in this call" if okp else f"content_encrypt parameters are {ps.text(params)[:80]}: not the bytes of a writer created in this call (a shared or default-argument writer accumulates earlier nonces, the first one keeps being used)")
+        if not okp:
+            chk.count("entropy sinks")
+            continue
+        root = ps.key(t.cast(ast.Call, params).func.value)  # type: ignore[union-attr]
+        seqs = [c for c in ps.calls("push_sequence") if ps.key(recv_of(t.cast(ast.Call, c.tree))) == root]
+        writes = [c for c in ps.calls("write_octet_string") if seqs and ps.key(recv_of(t.cast(ast.Call, c.tree))) == ps.key(seqs[0].tree)]
+        chk.count("entropy sinks")
+        if len(seqs) != 1 or len(writes) != 1:
+            chk.ob("O1", Site.of(f, ce[0].node, "GCM nonce"), False, "the GCM parameters are not one SEQUENCE with one OCTET STRING nonce written on this path")
+            continue
+        iv = t.cast(ast.Call, writes[0].tree).args[0]
+        fresh_value(repo, chk, f, ps, iv, "GCM nonce", 12, Site.of(f, writes[0].node, "GCM nonce"))
     # content_encrypt: key and nonce reach the primitive unchanged
     g = repo.func("_crypto.content_encrypt")
-    aes = _calls(g, "AESGCM")
-    enc = [n for n in body_nodes(g.node) if isinstance(n, ast.Call) and isinstance(n.func, ast.Attribute) and n.func.attr == "encrypt"]
-    okk = len(aes) == 1 and unparse(aes[0].args[0]) == g.params[2]
-    chk.ob("O4", Site.of(g, aes[0] if aes else None, None if aes else "AESGCM key"), okk, "AESGCM keyed with the cek parameter" if okk else "AESGCM is not keyed with the cek parameter")
-    if len(enc) == 1:
-        rdg = tr.rd(g)
-        o = rdg.origin(enc[0].args[0], enc[0])
-        okn = len(o) == 1 and isinstance(o[0][0], ast.Call) and unparse(o[0][0].func).endswith(".read_octet_string")
-        chk.ob("O4", Site.of(g, enc[0]), okn, "nonce = first OCTET STRING of the parameters" if okn else f"encrypt nonce comes from {[unparse(v) for v, _ in o]}")
-        chk.ob("O4", Site.of(g, enc[0]), unparse(enc[0].args[1]) == g.params[3], "plaintext parameter is what gets encrypted")
-    else:
-        chk.ob("O4", Site.of(g, construct="cipher.encrypt"), False, "content_encrypt no longer has a single cipher.encrypt call")
+    sg = Summary(g, ["algorithm", "parameters", "cek", "value"])
+    for ps in sg.returning():
+        enc = ps.calls("encrypt")
+        if len(enc) != 1:
+            chk.ob("O4", Site.of(g, construct="cipher.encrypt"), False, "content_encrypt no longer has a single cipher.encrypt call")
+            continue
+        c = t.cast(ast.Call, enc[0].tree)
+        a = ev_args(repo, g, enc[0])
+        okk = ps.text(recv_of(c)) == "AESGCM(cek)"
+        chk.ob("O4", Site.of(g, enc[0].node, "AESGCM key"), okk, "AESGCM keyed with the cek parameter" if okk else f"the cipher is {ps.text(recv_of(c))}")
+        okn = ps.text(a.get("nonce")) == "ASN1Reader(parameters).read_sequence().read_octet_string()"
+        chk.ob("O4", Site.of(g, enc[0].node, "nonce"), okn, "nonce = first OCTET STRING of the parameters" if okn else f"encrypt nonce is {ps.text(a.get('nonce'))}")
+        chk.ob("O4", Site.of(g, enc[0].node, "plaintext"), ps.text(a.get("data")) == "value", "plaintext parameter is what gets encrypted")
 
 
-def new_kek(repo: Repo, chk: Check, tr: Tracer) -> None:
+def new_kek(repo: Repo, chk: Check) -> None:
+    """The recipe of both new_kek modes (shared with C03) names the entropy calls; here they must be OS entropy of the right size,
+    and the private key must reach the group operation unreduced (compute_kek / compute_public_key recipes)."""
+    from sa.pathsum import Summary
+
+    from .c03 import compute_kek_recipe, compute_public_key, kek_sides
+    from .util import ev_args
+
     f = repo.method("_gkdi.GroupKeyEnvelope", "new_kek")
     chk.analysed(f)
-    g = build(f.node)
-    rd = tr.rd(f)
-    ki = [n for n in body_nodes(f.node) if isinstance(n, ast.Call) and unparse(n.func) == "KeyIdentifier"]
-    if len(ki) != 1:
-        raise AnalysisError("new_kek: KeyIdentifier construction changed")
-    kinfo = next((k.value for k in ki[0].keywords if k.arg == "key_info"), None)
-    if kinfo is None:
-        raise AnalysisError("new_kek: key_info keyword vanished")
-    # ---- nonce mode: kdf(..., key_info, 32) with key_info fresh 32 bytes
-    kdfs = _calls(f, "kdf")
-    cks = _calls(f, "compute_kek")
-    cps = _calls(f, "compute_public_key")
-    if len(kdfs) != 1 or len(cks) != 1:
-        raise AnalysisError("new_kek: kdf / compute_kek call sites changed")
-    ctx = kdfs[0].args[3]
-    fr = tr.fresh(f, ctx, kdfs[0])
-    chk.count("entropy sinks")
-    chk.ob("O1", Site.of(f, kdfs[0], f"nonce-mode key_info {unparse(ctx)}"), fr.ok, fr.why)
-    for gg, c in fr.calls:
-        ok, why = tr.size_ok(gg, c, 32)
-        chk.ob("O2", Site.of(gg, c), ok, why)
-    # the identifier stores the very value used (per branch): definitions reaching KeyIdentifier(key_info=..)
-    defs = rd.reaching(unparse(kinfo), ki[0]) if isinstance(kinfo, ast.Name) else []
-    kd = rd.reaching(unparse(ctx), kdfs[0]) if isinstance(ctx, ast.Name) else []
-    oks = isinstance(kinfo, ast.Name) and isinstance(ctx, ast.Name) and kinfo.id == ctx.id and {id(d) for d in kd} <= {id(d) for d in defs}
-    chk.ob("O4", Site.of(f, ki[0]), bool(oks), "the identifier stores the nonce that keyed the KEK" if oks else "KeyIdentifier.key_info is not the value used as KDF context")
-    # ---- public-key mode
-    pk = next((k.value for k in cks[0].keywords if k.arg == "private_key"), None)
-    if pk is None:
-        raise AnalysisError("new_kek: private_key keyword vanished")
-    fr = tr.fresh(f, pk, cks[0])
-    chk.count("entropy sinks")
-    chk.ob("O1", Site.of(f, cks[0], f"ephemeral private key {unparse(pk)}"), fr.ok, fr.why)
-    for gg, c in fr.calls:
-        ok, why = tr.size_ok(gg, c, "math.ceil(self.private_key_length / 8)")
-        chk.ob("O2", Site.of(gg, c), ok, why)
-    if len(cps) != 1:
-        if fr.ok:
-            raise AnalysisError("new_kek: compute_public_key call site changed")
+    kek_sides(repo, chk, f, repo.method("_gkdi.GroupKeyEnvelope", "get_kek"))
+    summ = Summary(f, ["self"])
+    for ps in summ.returning():
+        facts = ps.facts()
+        ki = [c for c in ps.calls("KeyIdentifier") if ps.text(t.cast(ast.Call, c.tree).func) == "KeyIdentifier"]
+        if len(ki) != 1:
+            chk.ob("O1", Site.of(f, ps.exit_node, "KeyIdentifier"), False, "a returning path of new_kek does not build one KeyIdentifier")
+            continue
+        kinfo = ev_args(repo, f, ki[0]).get("key_info")
         chk.count("entropy sinks")
-        return
-    pk2 = next((k.value for k in cps[0].keywords if k.arg == "private_key"), None)
-    if pk2 is None:
-        raise AnalysisError("new_kek: private_key keyword of compute_public_key vanished")
-    same = isinstance(pk, ast.Name) and isinstance(pk2, ast.Name) and pk.id == pk2.id and {id(d) for d in rd.reaching(pk.id, cks[0])} == {id(d) for d in rd.reaching(pk2.id, cps[0])}
-    chk.count("entropy sinks")
-    chk.ob("O4", Site.of(f, cps[0]), bool(same), "the public key placed in the blob belongs to the private key that derived the KEK" if same else f"compute_public_key uses {unparse(pk2)}, compute_kek uses {unparse(pk)}")
-    # key_info in the public-key branch is the compute_public_key result
-    okp = any(d.value is cps[0] for d in defs)
-    chk.ob("O4", Site.of(f, ki[0]), okp, "public-key mode stores the ephemeral public key" if okp else "KeyIdentifier.key_info is not the compute_public_key(...) result in public-key mode")
-    # peer key: both use self.l2_key
-    for c, kw in ((cks[0], "public_key"), (cps[0], "peer_public_key")):
-        v = next((k.value for k in c.keywords if k.arg == kw), None)
-        okv = v is not None and unparse(v) == "self.l2_key"
-        chk.ob("O4", Site.of(f, c), okv, f"{kw} = the group public key" if okv else f"{kw} is {unparse(v) if v is not None else 'missing'}")
-    del g
+        if "self.is_public_key" in facts:
+            cps = ps.calls("compute_public_key")
+            if len(cps) != 1 or ps.key(kinfo) != ps.key(cps[0].tree):
+                chk.ob("O4", Site.of(f, ki[0].node), False, f"public-key mode: key_info is {ps.text(kinfo)[:80]}, not the compute_public_key(...) result of this call")
+                continue
+            pk = ev_args(repo, f, cps[0]).get("private_key")
+            fresh_value(repo, chk, f, ps, pk, "ephemeral private key", "math.ceil(self.private_key_length / 8)", Site.of(f, cps[0].node, "ephemeral private key"))
+            cks = ps.calls("compute_kek")
+            same = len(cks) == 1 and ps.key(ev_args(repo, f, cks[0]).get("private_key")) == ps.key(pk)
+            chk.ob("O4", Site.of(f, cps[0].node), bool(same), "the public key placed in the blob belongs to the private key that derived the KEK" if same else "compute_public_key and compute_kek use different private keys")
+        else:
+            fresh_value(repo, chk, f, ps, kinfo, "nonce-mode key_info", 32, Site.of(f, ki[0].node, "nonce-mode key_info"))
+    compute_kek_recipe(repo, chk, repo.func("_gkdi.compute_kek"))
+    compute_public_key(repo, chk, repo.func("_gkdi.compute_public_key"))
 
 
 def who_may_call(repo: Repo, chk: Check) -> None:
@@ -259,6 +290,12 @@ def who_may_call(repo: Repo, chk: Check) -> None:
                 if d.endswith(".seed") or d in ("secrets.randbits", "secrets.randbelow", "secrets.choice", "uuid.uuid1", "uuid.uuid4"):
                     if f.mod.name in ("_crypto", "_gkdi", "_client"):
                         chk.ob("O3", Site.of(f, n), False, f"{d} is not an accepted entropy primitive for key material (its argument is a bit count / it is not OS byte entropy)")
+    for f in repo.funcs.values():
+        if f.mod.name in ("_crypto", "_gkdi", "_client", "_blob", "_pkcs7", "_asn1"):
+            a = f.node.args
+            for d in list(a.defaults) + [x for x in a.kw_defaults if x is not None]:
+                if isinstance(d, (ast.Call, ast.List, ast.Dict, ast.Set, ast.ListComp)) and not (isinstance(d, ast.Call) and unparse(d.func) in ("tuple", "frozenset", "bytes", "str", "int")):
+                    chk.ob("O3", Site.of(f, d, f"default argument of {f.name}"), False, f"{unparse(d)[:60]} as a default argument is created once at import and shared by every call: state (written nonces, keys) carries over from one protect call to the next")
     for q in ("_crypto.cek_generate", "_gkdi.GroupKeyEnvelope.new_kek", "_client._encrypt_blob", "_crypto.content_encrypt", "_client.ncrypt_protect_secret", "_client.async_ncrypt_protect_secret"):
         f = repo.func(q)
         cached = [d for d in f.decorators if any(c in d for c in CACHE_DECORATORS)]
